@@ -205,6 +205,24 @@ f := func(x) {
 	return x
 }
 return f(a)`,
+	// 8: const literals (which the optimizer substitutes for their identifiers)
+	// as the first operand of failing expressions, at two depths
+	`param a
+const k = 1
+const s = "s"
+const z = 0
+v := "str"
+bad := func(x, w) {
+	if x == 1 { return k - w }
+	if x == 2 { return s * w }
+	if x == 3 { return z[w] }
+	return k / (w ? z : 1)
+}
+if a == 0 { return k - v }
+if a == 5 {
+	return z[v].more
+}
+return bad(a, v)`,
 }
 
 // verifC16Lines returns the reported stack trace lines of an uncaught error.
